@@ -68,7 +68,8 @@ def struct_order(prog, rel, name):
 def new_exec(prog):
     ex = v1sum.new_exec(prog, [], 0)
     ex.suffix = ''
-    ex.hooks = [models_v2.hook, models_b.hook]
+    import models_it
+    ex.hooks = [models_v2.hook, models_b.hook, models_it.hook]
     return ex
 
 
